@@ -10,7 +10,7 @@ import vrun
 from gen import Gen
 from common import cerberus, cerrors, real_error, canon_errors
 
-LEVEL = "proof"
+LEVEL = "translation_validation"
 COQ_FILES = ["theories/Model/Handler.v"]
 FACT_GROUPS = ["F8", "F10"]
 ALLOWED_AXIOMS = []
